@@ -21,10 +21,11 @@ def load_prop(pid):
         raise
 
 
-def evaluate(pid, tier, tree, seed=0, write=False):
+def evaluate(pid, tier, tree, seed=0, write=False, skip_a3=False):
     """Run the rules of one property on a tree. Returns (report, module)."""
     mod = load_prop(pid)
     rep = Report(pid, tier, seed)
+    rep.skip_a3 = skip_a3
     rep.explanation = getattr(mod, "EXPLANATION", "")
     rep.trusted = list(getattr(mod, "TRUSTED_BASE", ["T1", "T4"]))
     rep.assumptions = list(getattr(mod, "ASSUMPTIONS", []))
